@@ -1,7 +1,7 @@
 """Shared analysis of the cone-coverage recursion and its drivers (used by C05 and C06)."""
 import math
 from sym import Engine, show, walk, C, UNIT
-from rules.common import strip_generics, cmp_facts, cval, run_fn, param, float_interval, failed_cmps
+from rules.common import strip_generics, cmp_facts, cval, run_fn, param, float_interval, failed_cmps, argv
 
 L = "nested::Layer::"
 PUSH = "nested::bmoc::BMOCBuilderUnsafe::push"
@@ -127,7 +127,34 @@ def minmax_provenance(ctx, crate, clause_outer, clause_inner):
             for ev in ce.events.values():
                 if ev.callee == MINMAX and ev.args[0] in (('cap', 'cone_radius'), ('deref', ('ref_t', ('cap', 'cone_radius')))): okarr = True
                 if ev.callee == MINMAX and 'cone_radius' in show(ev.args[0]): okarr = True
-        ctx.report(clause_outer, arr + ":same-radius-for-every-depth", okarr, "to_shs_min_max_array applies to_shs_min_max(cone_radius, d) to each distance", at=ba.span, kind="N")
+        how = "closure mapped over the distances"
+        if not clo:
+            okarr, how = array_loop(crate, arr)
+        ctx.report(clause_outer, arr + ":same-radius-for-every-depth", okarr, "to_shs_min_max_array applies to_shs_min_max(cone_radius, d) to each distance (%s)" % how, at=ba.span, kind="N")
+
+
+def array_loop(crate, arr):
+    """the index-loop form of the threshold array:  for i in 0..distances.len() { v.push(to_shs_min_max(cone_radius, distances[i])) }"""
+    from rules.common import loop_var_range, loop_bound_from_facts, derives
+    e = Engine(crate, opaque={MINMAX}); r = e.run(arr)
+    evs = list(e.events.values())
+    mm = [ev for ev in evs if ev.callee == MINMAX]
+    if len(mm) != 1 or not r.returns: return False, "%d to_shs_min_max call sites" % len(mm)
+    m = mm[0]
+    if m.args[0] != param("cone_radius"): return False, "threshold built for radius %s" % show(m.args[0])[:40]
+    d = m.args[1]
+    if d[0] != 'idx' or not any(x == param("distances") for x in walk(d[1])) or any(x[0] == 'idx' for x in walk(d[1])):
+        return False, "second argument %s is not an element of `distances`" % show(d)[:60]
+    rg = loop_var_range(e, d[2])
+    if rg is None: return False, "index %s is not a recognised loop counter" % show(d[2])[:40]
+    start, end = rg
+    if end is None: end = loop_bound_from_facts(m.facts, d[2])
+    lens = [ev.ret for ev in evs if ev.callee and ev.callee.endswith("slice::<impl [T]>::len") and any(x == param("distances") for x in walk(argv(ev, 0)))]
+    if start != C('usize', 0) or end is None or end not in lens: return False, "index runs over %s..%s, not 0..distances.len()" % (show(start), show(end) if end else "?")
+    push = [ev for ev in evs if ev.callee and strip_generics(ev.callee).endswith("Vec::push") and ev.args[1] == m.ret]
+    if len(push) != 1 or not push[0].argvals or push[0].argvals[0] is None or not derives(e, r.ret, push[0].argvals[0]):
+        return False, "the thresholds are not pushed, in order, to the returned vector"
+    return True, "index loop 0..distances.len(), pushed in order"
 
 
 class Internal:
